@@ -66,6 +66,51 @@ func checkC12(ctx *Ctx, r *Report, tier string) {
 		}
 	}
 	r.Counts["sink_creations"] = n
+	// G8: what runs before a render can start (the entry points and the functions that create
+	// their sinks) has no unbounded loop: a "create the directory and try again" loop around
+	// os.Create spins for ever on a dangling link or an empty path, and the call never returns.
+	nLoops := 0
+	seenFn := map[*ssa.Function]bool{}
+	var bounded func(fn *ssa.Function, depth int)
+	bounded = func(fn *ssa.Function, depth int) {
+		if fn == nil || seenFn[fn] || depth > 2 || len(fn.Blocks) == 0 || !inModule(fn) {
+			return
+		}
+		seenFn[fn] = true
+		descs := loopDescs(fn, topoAll(fn))
+		k := 0
+		for _, b := range fn.Blocks {
+			isHdr := false
+			for _, p := range b.Preds {
+				if isBackEdge(p, b) {
+					isHdr = true
+				}
+			}
+			if !isHdr {
+				continue
+			}
+			k++
+			nLoops++
+			ok, why := loopBounded(fn, b, descs)
+			r.check("G8", fmt.Sprintf("%s|loop#%d|bounded", shortFn(fn), k), b.Instrs[0].Pos(), ok, "a loop on the way to the render has a bounding exit test; "+why)
+		}
+	}
+	for _, fn := range ctx.srcFuncs("render") {
+		if fn.Parent() != nil {
+			continue
+		}
+		scs := sinkCreations(fn)
+		if len(scs) == 0 {
+			continue
+		}
+		bounded(fn, 0)
+		for _, sc := range scs {
+			if g := sc.call.Call.StaticCallee(); g != nil {
+				bounded(g, 1)
+			}
+		}
+	}
+	r.check("G8", "entry points and sink creators|loops-examined", 0, true, fmt.Sprintf("%d loops in %d functions", nLoops, len(seenFn)))
 	r.floor("G5", 6)
 	r.expectControl("G3", "verifCtlToNoReturnOnError")
 	r.expectControl("G5", "verifCtlToWaitBeforeClose")
